@@ -287,7 +287,7 @@ func fieldLoad(v ssa.Value, name string) (ssa.Value, bool) {
 		return nil, false
 	}
 	st, ok := fa.X.Type().Underlying().(*types.Pointer).Elem().Underlying().(*types.Struct)
-	if !ok || st.Field(fa.Field).Name() != name {
+	if !ok || fieldName(st.Field(fa.Field)) != name {
 		return nil, false
 	}
 	return fa.X, true
@@ -303,7 +303,7 @@ func fieldAddrName(fa *ssa.FieldAddr) string {
 	if !ok {
 		return ""
 	}
-	return recvNamed(pt.Elem()) + "." + st.Field(fa.Field).Name()
+	return recvNamed(pt.Elem()) + "." + fieldName(st.Field(fa.Field))
 }
 
 // callsTo lists call instructions (incl. defer/go) of f to the function with the given id
